@@ -82,6 +82,7 @@ type world struct {
 	descs   []string
 	byzInviteKeys []crypto.PrivKey
 	byzantine     bool // byzantine actors take part (C04)
+	reencode      bool // honest records may be re-encoded non-canonically (valid, unusual) before submission
 }
 
 func keyOf(p crypto.PubKey) string { return string(p.Storage()) }
@@ -170,6 +171,12 @@ func (w *world) catchUp(v *view, n int) {
 // submit hands a signed raw record to the consensus node: full validation against the current head,
 // acceptor signature, append. Returns the chain index or -1.
 func (w *world) submit(author *simlib.Account, raw *consensusproto.RawRecord, desc string) (int, error) {
+	if w.reencode && !strings.HasPrefix(desc, "byz:") {
+		if r2 := w.reencodeRecord(author, raw); r2 != nil {
+			raw = r2
+			desc += " [identities re-encoded non-canonically]"
+		}
+	}
 	w.cons.Lock()
 	defer w.cons.Unlock()
 	if err := w.cons.ValidateRawRecord(raw, nil); err != nil {
@@ -395,3 +402,40 @@ func (o *observer) storedIds() []string {
 }
 
 var _ = cidutil.VerifyCid
+
+// reencodeRecord: a client with another protobuf encoder may write the identities inside a rotation
+// with an explicit zero key-type field (08 00 12 20 <key> instead of 12 20 <key>): semantically the
+// same key, valid signatures (re-signed by the author). Returns nil when the record has no rotation.
+func (w *world) reencodeRecord(author *simlib.Account, raw *consensusproto.RawRecord) *consensusproto.RawRecord {
+	rec := &consensusproto.Record{}
+	if rec.UnmarshalVT(raw.Payload) != nil {
+		return nil
+	}
+	data := &aclrecordproto.AclData{}
+	if data.UnmarshalVT(rec.Data) != nil {
+		return nil
+	}
+	touched := false
+	for _, c := range data.AclContent {
+		var rk *aclrecordproto.AclReadKeyChange
+		if c.GetReadKeyChange() != nil {
+			rk = c.GetReadKeyChange()
+		} else if c.GetAccountRemove() != nil {
+			rk = c.GetAccountRemove().ReadKeyChange
+		}
+		if rk == nil {
+			continue
+		}
+		for _, k := range rk.AccountKeys {
+			if len(k.Identity) > 0 && k.Identity[0] != 0x08 && w.r.Src.Flip("reencode-entry", 0.6) {
+				k.Identity = append([]byte{0x08, 0x00}, k.Identity...)
+				touched = true
+			}
+		}
+	}
+	if !touched {
+		return nil
+	}
+	w.r.Probe("record-reencoded")
+	return w.space.SignData(author, data, rec.PrevId)
+}
